@@ -542,6 +542,14 @@ impl Walk {
                 }
                 self.nontrivial.insert(q.to_string());
             }
+            "@two_full_tables" => {
+                if r.contains("panic") {
+                    self.fail(&["C20"], i, q, r, "two full tables holding one text: the library panics although the database holds a handful of distinct strings".into());
+                } else if r != "first:ok second-a:ok second-b:ok third:ok counts=65536,65536" {
+                    self.fail(&["C20", "C01"], i, q, r, "two full tables holding one text must be accepted, survive a reopen, and leave room for more".into());
+                }
+                self.nontrivial.insert(q.to_string());
+            }
             "@catalog_hand_limit" => {
                 if r.contains("panic") {
                     self.fail(&["C20", "C04", "C09"], i, q, r, "a create_table at the row limit of a hand-filled catalog table panics".into());
